@@ -537,8 +537,54 @@ def check(run, terrs):
                          search=(lambda: search(run, binary)), level="proof", rule=RULE)
 
 
+SRC_THEOREMS = "C05.C05_model_is_translated_source"
+
+
+def source_tie_broken(run):
+    """names of the failed obligations that belong to the source tie (Gen/GenJson.v: translator error or a
+    C05_model_is_translated_source_* / C05_source_* theorem that no longer checks)"""
+    return [n for n, ok, _ in run.obligations
+            if not ok and (n == "translator.GenJson" or n.startswith(SRC_THEOREMS) or n.startswith("C05.C05_source_"))]
+
+
+def source_tie_cases():
+    """nested empty / non-empty containers (arrays in objects in arrays, depth 3) - the inputs on which a change
+    of a separator, an empty-container arm or the padding bookkeeping of manifest_json_ex_buf shows; every case goes
+    through every mode and the std.manifestJsonEx indent / newline / key_val_sep strings (correspond())"""
+    one = ("num", f2b(1.0))
+    leaves = [("arr", []), ("obj", []), one, ("str", "s")]
+    level1 = leaves[:2]
+    for a in leaves:
+        level1.append(("arr", [a]))
+        level1.append(("obj", [("k", a)]))
+        for b in leaves[:3]:
+            level1.append(("arr", [a, b]))
+            level1.append(("obj", [("k", a), ("l", b)]))
+    vs = list(level1)
+    for a in level1:
+        vs.append(("arr", [a, one]))           # a sibling AFTER a nested container: shows a padding that is not restored
+        vs.append(("obj", [("k", a), ("l", one)]))
+        vs.append(("arr", [("obj", [("k", a)]), ("arr", [a]), one]))
+    return vs
+
+
 def search(run, binary):
     """all 1- and 2-character strings over a hostile alphabet + all boundary doubles, oracle only"""
+    src = source_tie_broken(run)
+    if src:
+        run.log(f"search: source-tie obligation(s) broke ({', '.join(src)[:200]}): nested empty/non-empty containers "
+                "x every mode x indent strings against the hand model and the oracle")
+        g = Gen(run.rng.fork("srcsearch"))
+        cases = [(v, g.src(v, plain=True)) for v in source_tie_cases()]
+        f, diffs = correspond(run, binary, cases, [], use_model=True)
+        if not f and diffs:
+            # the code still writes valid JSON of the same value but not the text the (proved) hand model writes
+            f = [{"case": d.get("case", d) if isinstance(d, dict) else {"diff": str(d)[:300]},
+                  "summary": "C05 source tie: manifest_json_ex_buf no longer writes the text of the proved model: "
+                             + (json.dumps(d)[:200] if isinstance(d, dict) else str(d)[:200]),
+                  "what": "code vs proved model text", "expected": "model text", "got": d} for d in diffs[:5]]
+        if f:
+            return f
     run.log("search: exhaustive short strings over the hostile alphabet")
     alpha = [chr(c) for c in range(0x00, 0x21)] + ['"', "\\", "/", "a", "\x7f"] + HOSTILE
     vs = [("str", a) for a in alpha] + [("str", a + b) for a in alpha for b in alpha]
@@ -1016,12 +1062,18 @@ RULE = ("JSON-like values: deterministic part (every ASCII character singly and 
         "distinct = distinct Jsonnet expression; trivial = null/bool/0/1")
 TRUSTED = ["Coq 8.16.1 kernel incl. vm_compute (no native_compute); no axioms",
            "translator/gens/escape.py: ESCAPE table, escape arms, JsonFormat presets read from manifest.rs / stdlib manifest/mod.rs",
+           "translator/gens/jsonwriter.py: Rust-subset reader of manifest_json_ex_buf / manifest_json_ex / JsonFormat constructors "
+           "(fail closed; #[cfg(exp-bigint / exp-preserve-order)] items, with_description / in_description_frame error decoration, "
+           "run_assertions and the debug_truncate_strings THEN-branch are not translated)",
            "SPEC reader json_read is my reading of RFC 8259 (pinned against Python's json on a corpus every run)",
            "oracle: Python 3 json (strict, no NaN/Infinity), float() correctly rounded, repr() shortest digits",
            "correspondence: jrharness eval, vlib generators, Coq term printer/parser",
            "Rust core::fmt Display for f64 (shortest round-trip, no exponent): trusted, sampled by the oracle on every number",
            "modelled not verified: ObjValue::iter/fields order and visibility (C02), run_assertions, element evaluation errors, "
            "serde_json (std.parseJson) — exercised only through the correspondence"]
-ASSUMPTIONS = ["impl-model transliterates manifest.rs; tie = regenerated table/presets + differential run on every check",
+ASSUMPTIONS = ["impl-model transliterates manifest.rs; tie = regenerated table/presets + differential run on every check; "
+               "the writer (manifest_json_ex_buf, manifest_json_ex) and the JsonFormat constructors are in addition translated "
+               "statement by statement from the working tree (Gen/GenJson.v) and PROVED equal to the hand model for all values, "
+               "formats, buffers and paddings (C05_model_is_translated_source_*)",
                "objects reach the writer as the (name, value) sequence ObjValue::iter yields",
                "number tokens are opaque in the theorems (RFC grammar as hypothesis nums_ok); their value is checked only by the oracle"]
